@@ -30,9 +30,18 @@
 (*   ConfigRebuilds = FALSE is a deviation a seeded change introduced: the linters of      *)
 (*   open documents are kept (settings merged into them), so an override that is removed   *)
 (*   again stays in force.                                                                 *)
+(*   Identifiers.  For a source file the identifiers found in it are merged into the      *)
+(*   document's dictionary (so that a comment may mention them).  Every update loads the   *)
+(*   dictionary afresh and REPLACES the document's when they differ - which they always    *)
+(*   do once identifiers have been merged - and then merges the identifiers again, but     *)
+(*   only if they differ from the ones it remembers having merged (identRecord).           *)
+(*   ForgetIdentRecord = TRUE is the repaired code: replacing the dictionary also forgets   *)
+(*   that record.  FALSE is the code as it was: from the second update on the dictionary    *)
+(*   lacks the identifiers.  (Every document is treated as a source file whose identifiers  *)
+(*   do not change; dictHasIdents is part of what a publish was computed from.)            *)
 EXTENDS Naturals, Sequences, FiniteSets, TLC
 
-CONSTANTS Urls, Texts, Cfgs, MaxMsgs, MaxInFlight, VersionGuard, RefreshFromMemory, ConfigRebuilds
+CONSTANTS Urls, Texts, Cfgs, MaxMsgs, MaxInFlight, VersionGuard, RefreshFromMemory, ConfigRebuilds, ForgetIdentRecord
 
 VARIABLES clientText,   \* newest text the client sent per url ("none": not open)
           docText,      \* server's document state per url ("none": no entry); with the version it came from
@@ -40,18 +49,22 @@ VARIABLES clientText,   \* newest text the client sent per url ("none": not open
           clientCfg,    \* the configuration the client holds (and answers workspace/configuration with)
           serverCfg,    \* the server's copy
           docCfg,       \* the configuration each document's linter was built with
+          dictHasIdents,\* does the document's dictionary hold the document's identifiers?
+          identRecord,  \* does the document state remember having merged them?
           disk,         \* contents of the file behind each url ("none": never saved)
           hs,           \* in-flight handlers: sequence of [kind, u, t, ver, pc]
           sent,         \* number of messages sent
           overlapped    \* history flag: two handlers for the same url were in flight together
-lsvars == <<clientText, docText, published, clientCfg, serverCfg, docCfg, disk, hs, sent, overlapped>>
-cfgvars == <<clientCfg, serverCfg, docCfg>>
+lsvars == <<clientText, docText, published, clientCfg, serverCfg, docCfg, dictHasIdents, identRecord, disk, hs, sent, overlapped>>
+cfgvars == <<clientCfg, serverCfg, docCfg, dictHasIdents, identRecord>>
+idvars == <<dictHasIdents, identRecord>>
 C0 == CHOOSE c \in Cfgs : TRUE
-Empty == [t |-> "none", c |-> "-"]
+Empty == [t |-> "none", c |-> "-", i |-> TRUE]
 
 LInit == /\ clientText = [u \in Urls |-> "none"] /\ docText = [u \in Urls |-> [t |-> "none", v |-> 0]]
          /\ published = [u \in Urls |-> Empty] /\ disk = [u \in Urls |-> "none"]
          /\ clientCfg = C0 /\ serverCfg = C0 /\ docCfg = [u \in Urls |-> C0]
+         /\ dictHasIdents = [u \in Urls |-> FALSE] /\ identRecord = [u \in Urls |-> FALSE]
          /\ hs = <<>> /\ sent = 0 /\ overlapped = FALSE
 
 SameUrlInFlight(u) == \E i \in DOMAIN hs : hs[i].u = u \/ hs[i].kind = "config" \/ u = "*"
@@ -70,7 +83,7 @@ SendRefresh(u) == clientText[u] # "none" /\ Start([kind |-> "refresh", c |-> C0,
                   /\ UNCHANGED <<clientText, docText, published, disk, cfgvars>>
 \* the user changes a setting: the client stores it and announces it (the notification carries the settings)
 SendConfig(c) == c # clientCfg /\ Start([kind |-> "config", c |-> c, todo |-> <<>>, u |-> "*", t |-> "?", ver |-> sent + 1, pc |-> "store"])
-                 /\ clientCfg' = c /\ UNCHANGED <<clientText, docText, published, disk, serverCfg, docCfg>>
+                 /\ clientCfg' = c /\ UNCHANGED <<clientText, docText, published, disk, serverCfg, docCfg, idvars>>
 SendClose(u) == clientText[u] # "none" /\ Start([kind |-> "close", c |-> C0, todo |-> <<>>, u |-> u, t |-> "none", ver |-> sent + 1, pc |-> "close"])
                 /\ clientText' = [clientText EXCEPT ![u] = "none"] /\ UNCHANGED <<docText, published, disk, cfgvars>>
 
@@ -88,7 +101,7 @@ StepRead(i) ==
 \* pull_config: the client's current configuration becomes the server's; the handler copies it for later
 StepCfg(i) == /\ hs[i].pc = "cfg" /\ hs' = [hs EXCEPT ![i].pc = "load", ![i].c = clientCfg]
               /\ serverCfg' = clientCfg
-              /\ UNCHANGED <<clientText, docText, published, disk, sent, overlapped, clientCfg, docCfg>>
+              /\ UNCHANGED <<clientText, docText, published, disk, sent, overlapped, clientCfg, docCfg, idvars>>
 StepLoad(i) == hs[i].pc = "load" /\ Advance(i, "set") /\ UNCHANGED <<clientText, docText, published, disk, sent, overlapped, cfgvars>>
 \* update_document under the doc_state lock
 StepSet(i) ==
@@ -99,20 +112,33 @@ StepSet(i) ==
                 ELSE [docText EXCEPT ![h.u] = [t |-> h.t, v |-> h.ver]])
      \* a new document state gets a linter with the configuration the handler copied; an existing one keeps its linter
      /\ docCfg' = IF h.kind = "open" /\ cur.t = "none" THEN [docCfg EXCEPT ![h.u] = h.c] ELSE docCfg
+     \* the dictionary: a new document state starts with the freshly loaded one; an existing one is replaced
+     \* when it differs (i.e. when it holds identifiers); then the identifiers are merged in unless the state
+     \* remembers having done so
+     /\ LET dropped == h.kind # "open" /\ cur.t = "none"
+            isNew == h.kind = "open" /\ cur.t = "none"
+            replaced == ~isNew /\ dictHasIdents[h.u]
+            has1 == IF isNew \/ replaced THEN FALSE ELSE dictHasIdents[h.u]
+            rec1 == IF isNew THEN FALSE ELSE IF replaced /\ ForgetIdentRecord THEN FALSE ELSE identRecord[h.u]
+        IN IF dropped THEN UNCHANGED idvars
+           ELSE /\ dictHasIdents' = [dictHasIdents EXCEPT ![h.u] = IF rec1 THEN has1 ELSE TRUE]
+                /\ identRecord' = [identRecord EXCEPT ![h.u] = TRUE]
   /\ UNCHANGED <<clientText, published, disk, sent, overlapped, clientCfg, serverCfg>>
 \* publish_diagnostics: lints whatever the document state holds at this moment
 StepPub(i) ==
   /\ hs[i].pc = "pub" /\ hs' = Remove(i)
-  /\ published' = [published EXCEPT ![hs[i].u] = IF docText[hs[i].u].t = "none" THEN Empty ELSE [t |-> docText[hs[i].u].t, c |-> docCfg[hs[i].u]]]
+  /\ published' = [published EXCEPT ![hs[i].u] = IF docText[hs[i].u].t = "none" THEN Empty
+                                               ELSE [t |-> docText[hs[i].u].t, c |-> docCfg[hs[i].u], i |-> dictHasIdents[hs[i].u]]]
   /\ UNCHANGED <<clientText, docText, disk, sent, overlapped, cfgvars>>
 StepClose(i) ==
   /\ hs[i].pc = "close" /\ hs' = Remove(i)
   /\ docText' = [docText EXCEPT ![hs[i].u] = [t |-> "none", v |-> 0]]
   /\ published' = [published EXCEPT ![hs[i].u] = Empty]
-  /\ UNCHANGED <<clientText, disk, sent, overlapped, cfgvars>>
+  /\ dictHasIdents' = [dictHasIdents EXCEPT ![hs[i].u] = FALSE] /\ identRecord' = [identRecord EXCEPT ![hs[i].u] = FALSE]
+  /\ UNCHANGED <<clientText, disk, sent, overlapped, clientCfg, serverCfg, docCfg>>
 \* didChangeConfiguration: store the announced settings ...
 StepStore(i) == /\ hs[i].pc = "store" /\ Advance(i, "rebuild") /\ serverCfg' = hs[i].c
-                /\ UNCHANGED <<clientText, docText, published, disk, sent, overlapped, clientCfg, docCfg>>
+                /\ UNCHANGED <<clientText, docText, published, disk, sent, overlapped, clientCfg, docCfg, idvars>>
 \* ... rebuild every document's linter under the lock and note the documents ...
 RECURSIVE SeqOf(_)
 SeqOf(S) == IF S = {} THEN <<>> ELSE LET x == CHOOSE y \in S : TRUE IN <<x>> \o SeqOf(S \ {x})
@@ -121,13 +147,20 @@ StepRebuild(i) ==
   /\ LET open == {u \in Urls : docText[u].t # "none"} IN
      /\ docCfg' = IF ConfigRebuilds THEN [u \in Urls |-> IF u \in open THEN serverCfg ELSE docCfg[u]] ELSE docCfg
      /\ hs' = IF open = {} THEN Remove(i) ELSE [hs EXCEPT ![i].pc = "each", ![i].todo = SeqOf(open)]
-  /\ UNCHANGED <<clientText, docText, published, disk, sent, overlapped, clientCfg, serverCfg>>
+  /\ UNCHANGED <<clientText, docText, published, disk, sent, overlapped, clientCfg, serverCfg, idvars>>
 \* ... then, document by document: re-process from memory (which pulls the configuration again) and publish
 StepEach(i) ==
   /\ hs[i].pc = "each"
   /\ LET u == Head(hs[i].todo) rest == Tail(hs[i].todo) IN
      /\ serverCfg' = clientCfg
-     /\ published' = [published EXCEPT ![u] = IF docText[u].t = "none" THEN Empty ELSE [t |-> docText[u].t, c |-> docCfg[u]]]
+     \* the re-processing is an update of an existing document state: the dictionary rule applies
+     /\ LET replaced == dictHasIdents[u]
+            rec1 == IF replaced /\ ForgetIdentRecord THEN FALSE ELSE identRecord[u]
+            has2 == IF docText[u].t = "none" THEN dictHasIdents[u] ELSE IF rec1 THEN FALSE ELSE TRUE
+        IN /\ dictHasIdents' = [dictHasIdents EXCEPT ![u] = IF replaced \/ ~rec1 THEN has2 ELSE dictHasIdents[u]]
+           /\ identRecord' = [identRecord EXCEPT ![u] = IF docText[u].t = "none" THEN identRecord[u] ELSE TRUE]
+           /\ published' = [published EXCEPT ![u] = IF docText[u].t = "none" THEN Empty
+                                                    ELSE [t |-> docText[u].t, c |-> docCfg[u], i |-> (IF replaced \/ ~rec1 THEN has2 ELSE dictHasIdents[u])]]
      /\ hs' = IF rest = <<>> THEN Remove(i) ELSE [hs EXCEPT ![i].todo = rest]
   /\ UNCHANGED <<clientText, docText, disk, sent, overlapped, clientCfg, docCfg>>
 
@@ -140,7 +173,7 @@ LNext == \/ \E u \in Urls, t \in Texts : SendOpen(u, t) \/ SendChange(u, t)
 Quiescent == hs = <<>>
 \* C09: once everything has been processed, the last word on each document is its newest text
 LastWord == Quiescent => \A u \in Urls :
-   published[u] = (IF clientText[u] = "none" THEN Empty ELSE [t |-> clientText[u], c |-> clientCfg])
+   published[u] = (IF clientText[u] = "none" THEN Empty ELSE [t |-> clientText[u], c |-> clientCfg, i |-> TRUE])
 \* ... which the code guarantees only when handlers for one document never overlap
 LastWordUnlessOverlapped == LastWord \/ overlapped
 
